@@ -98,6 +98,27 @@ def run(ctx):
         else:
             ctx.bad('C13.2-twin-variant', inst, 'owned builds %s, zero-copy builds %s' % (sorted(vo), sorted(vb)), where, key='TWIN:%s:variant' % (b['parser'] or str(t)))
 
+    # text of the legacy atom tags: both decoders must turn the same bytes into the same characters
+    ctx.rule('C13.2-twin-atom-text', 'for the Latin-1 atom tags both decoders yield one character per byte: the zero-copy parser may reuse the raw bytes as UTF-8 (from_utf8) only under an is_ascii() test, '
+             'exactly where the two readings coincide', floor=2)
+    from .c03 import _ascii_guarded
+    for t in spec.get('latin1_tags', []):
+        for nm, tbl in (('owned', owned), ('borrowed', borrowed)):
+            ent = tbl.get(t)
+            if ent is None or not ent.get('parser'):
+                continue
+            PB = P.B(ent['parser'])
+            if PB is None:
+                continue
+            inst = '%d:%s' % (t, nm)
+            utf8_calls = [bb for bb, tt in PB.calls() if any(n.endswith('::from_utf8') or n.endswith('from_utf8_lossy') or n.endswith('from_utf8_unchecked') for n in callee_names(tt))]
+            unguarded = [bb for bb in utf8_calls if not _ascii_guarded(PB, bb)]
+            if unguarded:
+                ctx.bad('C13.2-twin-atom-text', inst, '%s reads the bytes of a Latin-1 atom as UTF-8 without an is_ascii() test: for bytes such as C3 A9 it yields one character where the other decoder yields two'
+                        % ent['parser'].rsplit('::', 1)[1], ctx.where(PB, unguarded[0]), key='TWIN:%s:latin1-as-utf8' % ent['parser'])
+            else:
+                ctx.ok('C13.2-twin-atom-text', inst, 'no UTF-8 reading of the raw bytes outside an is_ascii() branch', ctx.where(PB))
+
     # ---------------- clause 3: to_owned / From<&OwnedTerm> ----------------------------------------------
     ctx.rule('C13.3-conversion-table', 'BorrowedTerm::to_owned (and From<&OwnedTerm>) map variant X to variant X', floor=17)
     for fn, src_adt, dst_adt in (("erltf::borrowed::BorrowedTerm::<'a>::to_owned", BORROWED, OWNED),
